@@ -6,7 +6,7 @@
 (***************************************************************************)
 EXTENDS Registry, TLC, IOUtils, Json, CSV
 
-ASSUME WellFormed
+ASSUME RegistryWellFormed
 
 NameRows == { << "option", r[2], r[1] >> : r \in OptionRows }
        \cup { << "content_format", r[2], r[1] >> : r \in ContentFormatRows }
